@@ -649,6 +649,8 @@ func crashKind(stderr string) string {
 		return "concurrent-map"
 	case strings.Contains(stderr, "stack overflow") || strings.Contains(stderr, "goroutine stack exceeds"):
 		return "stack-overflow"
+	case strings.Contains(stderr, "fatal: case did not return within"):
+		return "no-return"
 	case strings.Contains(stderr, "out of memory"):
 		return "out-of-memory"
 	case strings.Contains(stderr, "unexpected fault address") || strings.Contains(stderr, "SIGSEGV"):
